@@ -56,6 +56,24 @@ var c06Pool = []poolQuery{
 	{Text: `query($s: Boolean!) { a @include(if: $s) b }`, Vars: map[string]interface{}{"s": false}},
 	{Text: `query A { a } query B { b }`, Op: "A"},
 	{Text: `query A { a } query B { b }`, Op: "B"},
+	// the same literals in another pattern of equality (equal literals share a synthetic variable)
+	{Text: `{ k1: req(r: 1) k2: req(r: 2) k3: req(r: 1) }`},
+	{Text: `{ k1: req(r: 1) k2: req(r: 2) k3: req(r: 2) }`},
+	{Text: `{ k1: req(r: 1) k2: req(r: 1) k3: req(r: 2) }`},
+	{Text: `{ n(x: {a: 1, b: "s", n: {a: 2, b: "s", n: {a: 1, b: "t"}}}) }`},
+	{Text: `{ n(x: {a: 1, b: "s", n: {a: 2, b: "t", n: {a: 2, b: "s"}}}) }`},
+	// the same variables used at swapped positions
+	{Text: `query($x: Int!, $y: Int!) { k1: req(r: $x) k2: req(r: $y) }`, Vars: map[string]interface{}{"x": 1, "y": 2}},
+	{Text: `query($x: Int!, $y: Int!) { k1: req(r: $y) k2: req(r: $x) }`, Vars: map[string]interface{}{"x": 1, "y": 2}},
+	{Text: `query($x: Int!, $y: Int!) { k1: req(r: $x) k2: req(r: $x) }`, Vars: map[string]interface{}{"x": 1, "y": 2}},
+	// operation names that select nothing: the answers differ only in the error text
+	{Text: `query A { a } query B { b }`, Op: ""},
+	{Text: `query A { a } query B { b }`, Op: "C"},
+	{Text: `query A { a } query B { b }`, Op: "D"},
+	{Text: `query A { a }`, Op: "A"},
+	{Text: `query A { a }`, Op: ""},
+	{Text: `query A { a }`, Op: "C"},
+	{Text: `query A { a }`, Op: "D"},
 	{Text: `query A { o { x(y: 1) } } query B { o { x(y: 2) } }`, Op: "A"},
 	{Text: `query A { o { x(y: 1) } } query B { o { x(y: 2) } }`, Op: "B"},
 	{Text: `{ o { ...F } } fragment F on O { a x(y: 1) }`},
@@ -117,7 +135,19 @@ func sameResponse(got, want *graphql.Result) string {
 	if gp, wp := errPathsOf(got), errPathsOf(want); gp != wp && want.Data != nil {
 		return fmt.Sprintf("error paths differ: served [%s], from scratch [%s]", gp, wp)
 	}
+	if gm, wm := errMessagesOf(got), errMessagesOf(want); gm != wm {
+		return fmt.Sprintf("error messages differ:\n    served:       %s\n    from scratch: %s", gm, wm)
+	}
 	return ""
+}
+
+func errMessagesOf(res *graphql.Result) string {
+	var ms []string
+	for _, e := range res.Errors {
+		ms = append(ms, e.Message)
+	}
+	sort.Strings(ms)
+	return strings.Join(ms, " | ")
 }
 
 type lruModel struct {
@@ -369,6 +399,35 @@ func TestC06(t *testing.T) {
 func perturbLiterals(d *model.Doc, t *rapid.T) (*model.Doc, int) {
 	nd := gen.CloneDoc(d)
 	n := 0
+	// the Int literals of the document's field arguments (small ones)
+	var ints []int64
+	var collect func(v *model.Val)
+	collect = func(v *model.Val) {
+		if v == nil {
+			return
+		}
+		if v.K == "int" && v.I < 1000 && v.I > -1000 {
+			ints = append(ints, v.I)
+		}
+		for _, e := range v.L {
+			collect(e)
+		}
+		for _, f := range v.O {
+			collect(f.V)
+		}
+	}
+	var collectSel func(ss []*model.Sel)
+	collectSel = func(ss []*model.Sel) {
+		for _, s := range ss {
+			for _, a := range s.Args {
+				collect(a.Val)
+			}
+			collectSel(s.Sel)
+		}
+	}
+	for _, def := range nd.Defs {
+		collectSel(def.Sel)
+	}
 	var val func(v *model.Val)
 	val = func(v *model.Val) {
 		if v == nil {
@@ -377,8 +436,16 @@ func perturbLiterals(d *model.Doc, t *rapid.T) (*model.Doc, int) {
 		switch v.K {
 		case "int":
 			if v.I < 1000 && v.I > -1000 && gen.Chance(t, 60, "perturbInt") {
-				v.I++
-				n++
+				if len(ints) > 0 && gen.Chance(t, 50, "copyInt") {
+					// another literal's value: changes which positions hold equal literals
+					if w := ints[gen.Uniform(t, len(ints), "intFrom")]; w != v.I {
+						v.I = w
+						n++
+					}
+				} else {
+					v.I++
+					n++
+				}
 			}
 		case "str":
 			if gen.Chance(t, 60, "perturbStr") {
@@ -430,23 +497,40 @@ func c06GenOracle(c *CacheGenCase) string {
 	pc := graphql.NewPlanCache(graphql.PlanCacheOptions{Normalize: c.Normalize, MaxEntries: c.MaxEntries})
 	texts := []string{model.Print(ec.Doc, nil).Text, model.Print(c.Neighbour, nil).Text}
 	ctx := func() context.Context { return build.WithSession(context.Background(), &build.Session{W: ec.World}) }
-	for step, which := range []int{0, 1, 0, 1, 0} {
+	// valuations: the case's own variables and its alternatives, cycled through the lookups
+	valuations := []map[string]interface{}{ec.goVars()}
+	for _, av := range ec.AltVars {
+		e2 := ExecCase{Vars: av}
+		valuations = append(valuations, e2.goVars())
+	}
+	for step, which := range []int{0, 1, 0, 1, 0, 0, 1} {
 		text := texts[which]
+		vals := valuations[0]
+		if step >= 2 {
+			vals = valuations[(step-1)%len(valuations)]
+		}
+		copyVals := func() map[string]interface{} {
+			out := map[string]interface{}{}
+			for k, v := range vals {
+				out[k] = v
+			}
+			return out
+		}
 		pr := pc.Get(&b.Schema, text, ec.OpName)
 		var got *graphql.Result
 		if pr.Plan == nil {
 			got = &graphql.Result{Errors: pr.Errors}
 		} else {
-			args := ec.goVars()
+			args := copyVals()
 			for k, v := range pr.SynthArgs {
 				args[k] = v
 			}
 			got = graphql.ExecutePlan(pr.Plan, graphql.ExecuteParams{Schema: b.Schema, OperationName: ec.OpName, Args: args, Context: ctx()})
 		}
-		want := graphql.Do(graphql.Params{Schema: b.Schema, RequestString: text, OperationName: ec.OpName, VariableValues: ec.goVars(), Context: ctx()})
+		want := graphql.Do(graphql.Params{Schema: b.Schema, RequestString: text, OperationName: ec.OpName, VariableValues: copyVals(), Context: ctx()})
 		if d := sameResponse(got, want); d != "" {
-			return fmt.Sprintf("lookup %d (document %d of a literal-neighbour pair, normalize=%v): response differs from parsing, validating and executing from scratch: %s\n  document: %s\n  its neighbour: %s\n  variables: %s",
-				step, which, c.Normalize, d, text, texts[1-which], canonJSON(ec.goVars()))
+			return fmt.Sprintf("lookup %d (document %d of a literal-neighbour pair, normalize=%v): response differs from parsing, validating and executing from scratch: %s\n  document: %s\n  its neighbour: %s\n  variables: %s (earlier lookups used %d other valuation(s))",
+				step, which, c.Normalize, d, text, texts[1-which], canonJSON(vals), len(valuations)-1)
 		}
 	}
 	return ""
